@@ -14,9 +14,8 @@ try:
     man = json.load(open(os.path.join(hv.VERIF, "MANIFEST.json")))
     for c in man["checks"]:
         spec = importlib.import_module("props." + c["property_id"].lower()).SPEC
-        if spec.get("gen"):
-            import gen_lean
-            gen_lean.run(spec["gen"])
+        import gen_lean
+        gen_lean.run(["grid", "anchors"])
         targets += spec["lean_modules"]
 except Exception as e:  # noqa: BLE001
     print("setup: could not read the manifest/specs:", e)
